@@ -12,6 +12,51 @@ CHECKS = {
  "C01": (MC, "explicit-state enumeration of all insert histories of small universes on the real builder/readers vs ordered-map model",
          "Every subset of three 13-15 key universes (every valid insert history), crossed with value patterns, cache geometries (hook H1) and all 17 front ends, plus fan-out 0..256 families, is built by the real code and read back through every reader; result compared with a BTreeMap. Exhaustive inside the named scopes; nothing outside them is claimed.",
          "Trusted: the harness model and enumeration code. Non-raw front ends only run under the default cache geometry.", "DESIGN.md section 5 C01"),
+ "C02": (MC, "explicit-state enumeration: every FST of the small universes x full probe closure vs ordered-map model",
+         "For every FST of the C01 universes (two cache geometries) and the fan-out families every probe of the closure (keys, prefixes, extensions, substitutions, all 256 bytes under wide nodes) is looked up through Fst/Map/Set get/contains and compared with the model.",
+         "Trusted: harness model. Probes outside the closure are not claimed.", "DESIGN.md section 5 C02"),
+ "C03": (MC, "explicit-state enumeration: every FST x every (lower kind,key,upper kind,key) incl. inverted ranges and repeated bound calls vs model filter",
+         "All bound combinations over a closed set of bound keys around the keys of every FST of the universes, through raw/Map/Set range builders; the stream must equal the model filter and stay ended.",
+         "'same kind twice' is read as the same method called twice.", "DESIGN.md section 5 C03"),
+ "C04": (MC, "explicit-state enumeration: FST x bounds x every small table DFA with every sound hint assignment vs independent run of the table",
+         "Every 1-2 (thorough 3) state DFA over two byte classes with every sound can_match assignment is searched (search and search_with_state) over every FST/bounds of the scope and compared with an independent run of the table incl. reported states; shipped automata, combinators, Levenshtein and regex-automata DFAs against specification predicates.",
+         "Contract-abiding = deterministic, sound can_match, default accept_eof.", "DESIGN.md section 5 C04"),
+ "C05": (MC, "explicit-state enumeration: all k-tuples (k<=6) of subsets of a small universe x stream kinds x 4 operations + 3 predicates vs set algebra",
+         "All tuples of subsets, heap-tie values, mixed stream kinds, three OpBuilder front ends; emitted keys and IndexedValue sets compared with set algebra on the models.",
+         "Order inside an IndexedValue list is unspecified and normalised.", "DESIGN.md section 5 C05"),
+ "C06": (MC, "explicit-state enumeration of all call histories up to a depth on 4 builder kinds + 10 bulk entry points vs reference builder model, step by step",
+         "Every history of insert calls (valid/duplicate/smaller/empty keys at every position) up to depth 4-7; every call result with payload and the finished content after EVERY prefix compared with a reference builder; same histories through from_iter/extend_iter/extend_stream.",
+         "Mixing add and insert on one raw builder is outside the property.", "DESIGN.md section 5 C06"),
+ "C07": (MC, "deviation-bounded exhaustive exploration of sink answer schedules (short writes, Interrupted) on the real builder vs in-memory build",
+         "For fixed inputs covering every emission site, every answer sequence of the sink with <= d deviations (d = 2..4), policy sinks deviating on every call, BufWriter and pre-filled containers; bytes, bytes_written() after every insert and verify() compared with the in-memory build.",
+         "The sink honours the io::Write contract.", "DESIGN.md section 5 C07"),
+ "C08": (MC, "exhaustive single-byte/burst mutation of small FSTs + all chunkings of the checksummer vs independent bitwise CRC-32C",
+         "Every byte position x every replacement value (and 2-4 byte bursts) of every small FST must not pass open+verify; the trailer of every builder output equals an independent masked CRC-32C; all 2-/3-cuts across the 16-byte fast path agree (hook H3).",
+         "Independent CRC validated on the RFC 3720 vector.", "DESIGN.md section 5 C08"),
+ "C09": (MC, "every builder output of the C01 space decoded by an independent decoder written from the format description (tiling, targets, content)",
+         "Independent decoder checks header/footer, reference CRC, gap-free tiling, earlier in-bounds targets, index tables, and that reading by the description alone yields the model; includes files with 1-3 (thorough 4) byte deltas.",
+         "The format description in DESIGN.md is the documented format.", "DESIGN.md section 5 C09"),
+ "C10": (MC, "model space encoded by an independent v1/v2/v3 reference encoder and read by the real reader from every container type; version x length gate grid; golden files",
+         "Reference-encoded files (3 versions x 3 layouts) opened from Vec/slice/Cow/Box/Arc/mmap/map_data answer stream/get/range/search/set operations/verify exactly; header gate grid over version values and lengths 0..40; committed golden files.",
+         "No earlier fst release is available offline; v1/v2 are produced by the reference encoder, which is bound to the code by the real reader, the independent decoder and byte identity of its v3 output with the real builder.", "DESIGN.md section 5 C10"),
+ "C11": ("fault_enumeration", "exhaustive fault injection: every sink call index x failure kind x single/persistent x API, also after one benign deviation",
+         "W measured per input; every write/flush call failing with 3 error kinds or Ok(0); the API call in progress must return Err(Io), no panic, no silent success, accepted bytes stay a prefix of the fault-free output.",
+         "The caller stops at the first Err.", "DESIGN.md section 5 C11"),
+ "C12": (MC, "explicit-state enumeration of all key sets x cache geometries with observed eviction counters vs independently computed minimal DFA / trie",
+         "For every build the eviction premise is observed (hook H2); eviction-free builds must have no duplicate nodes and sets must hit the minimal acyclic DFA size; every build obeys the trie bound; corpora sharing ratio > 0.5.",
+         "Equivalence is checked as identical node content over already-deduplicated targets. Corpora clause is three fixed evaluations.", "DESIGN.md section 5 C12"),
+ "C16": (MC, "explicit-state enumeration of all strictly monotone maps of small universes x all query values vs inverse of the model",
+         "Every key set (<=5/7 keys) x every strictly increasing assignment from a small range plus boundary/MAX assignments; get_key/get_key_into for all values around the stored ones.",
+         "Buffer content after a false return is unspecified.", "DESIGN.md section 5 C16"),
+ "C17": (MC, "exhaustive enumeration of all (q,d,k) over an 8-character mixed-width alphabet vs Wagner-Fischer on scalar values; all state limits 0..N+2",
+         "All queries |q|<=3, d<=2, all keys |k|<=4 (thorough 5) through the real DFA, plus Set/Map searches and complement/starts_with, plus the state-limit clause via hook H4.",
+         "Edit distance without transpositions.", "DESIGN.md section 5 C17"),
+ "C18": (MC, "bounded exhaustive enumeration of combinator expressions over real types x all strings up to the pumping bound vs explicit product DFA",
+         "About 10^6 expressions built from the real StartsWith/Complement/Union/Intersection types over leaves with every sound hint assignment; is_match equality and hint soundness for every string up to min(n+1, cap).",
+         "Strings, not implementation states, are enumerated because state types are opaque.", "DESIGN.md section 5 C18"),
+ "C20": ("exploration", "boundary-value grid of headers/footers for lengths 0..64 + all truncations/single-byte mutations of small FSTs under catch_unwind; forbid(unsafe_code) lint",
+         "No panic from open + metadata + verify on ~18M untrusted byte strings (overflow checks on); the library compiles under -F unsafe_code.",
+         "The unsafe clause is a compiler lint, not model checking. Later operations on garbage may panic by the property's wording.", "DESIGN.md section 5 C20"),
 }
 PENDING = {}
 
